@@ -142,9 +142,14 @@ Definition mk_policy_inferred (explicit : list (string * guard)) (effects : list
        match assoc loc explicit with
        | Some g => Some g
        | None =>
+         (* "T.*": every location of struct T (fields, values returned by its methods) *)
+         match assoc (struct_of loc ++ ".*") explicit with
+         | Some g => Some g
+         | None =>
            if mem_str loc written
            then match assoc (struct_of loc) mutexes with Some m => Some (GuardedBy m) | None => None end
            else Some Immutable
+         end
        end;
      effect_of := eff |}.
 
@@ -170,12 +175,12 @@ Definition entries_C18_big : list string := ["BigIndexWriter.AddRow"].
 
 Definition policy_C18_mem (mutexes : list (string * string)) (methods external : list string) (funs : funtab) : policy := mk_policy_inferred
   [ (* the schema object belongs to the writer *)
-    ("schema.Columns", GuardedBy (mutex_of mutexes "IndexWriter")) ]
+    ("schema.*", GuardedBy (mutex_of mutexes "IndexWriter")) ]
   [ ]
   mutexes methods external funs entries_C18_mem.
 
 Definition policy_C18_big (mutexes : list (string * string)) (methods external : list string) (funs : funtab) : policy := mk_policy_inferred
-  [ ("schema.Columns", GuardedBy (mutex_of mutexes "BigIndexWriter")) ]
+  [ ("schema.*", GuardedBy (mutex_of mutexes "BigIndexWriter")) ]
   [ ("BigIndexWriter.tempDB", "Begin", ERead) ]
   mutexes methods external funs entries_C18_big.
 
